@@ -17,3 +17,16 @@ def build(reg):
                      "adversarial ordinate sequence can keep |b-a| >= tolerance; see DESIGN.md C19)"],
         trusted=["the function argument f is a mathematical function F: R -> R (same value for the same point)"],
     )
+
+# negative controls (thorough tier): (name, file, old text, new text)
+CONTROLS = [
+    ("drop the direction test of an interpolation step", "emu_base/math/brents_root_finding.py",
+     "(adx >= abs(3 * delta_ab / 4) or dx * delta_ab < 0)", "(adx >= abs(3 * delta_ab / 4))"),
+    ("accept steps up to 5/4 of the bracket", "emu_base/math/brents_root_finding.py",
+     "adx >= abs(3 * delta_ab / 4)", "adx >= abs(5 * delta_ab / 4)"),
+    ("update a instead of b on a sign change", "emu_base/math/brents_root_finding.py",
+     "        if self.fa * ordinate < 0:\n            self.b, self.fb = abscissa, ordinate\n        else:\n            self.a, self.fa = abscissa, ordinate",
+     "        if self.fa * ordinate < 0:\n            self.a, self.fa = abscissa, ordinate\n        else:\n            self.b, self.fb = abscissa, ordinate"),
+    ("remove the exact-root requery", "emu_base/math/brents_root_finding.py",
+     "        if self.fb == 0:", "        if False:"),
+]
